@@ -10,7 +10,7 @@ claimed = {
    tech="contract-based deductive verification (own WP/VC generator over go/ssa + SMT)"),
  "C20": dict(cat="other", ref="§4 C20",
    text="Deductive proof of totality/in-bounds for the short duration formatter: fmtInt, fmtFrac, fmtMsec, fmtSeconds, shortDurFormat, shortDur are under contract (digit-count spec function specND, loop invariants, frames) and every index/slice/division obligation is discharged for all int64 durations and both styles. The round trip with ParseDuration and the agreement of ParseDuration with time.ParseDuration are not decided yet (see DESIGN); hence level 'other' rather than 'proof'.",
-   note="Trusted: lvc VC generator, go/ssa, solvers; int is 64 bit. Not yet covered: parser equivalence and round trip.",
+   note="Trusted: lvc VC generator, go/ssa, solvers; int is 64 bit. The parser's digit scanners (leadingInt, leadingFraction) are proved to consume exactly the leading digits, to leave a suffix of the input that starts with a non-digit, and (leadingInt) to fail only on overflow. Not covered: the agreement of ParseDuration with time.ParseDuration on whole strings and the format/parse round trip.",
    tech="contract-based deductive verification (own WP/VC generator over go/ssa + SMT)"),
 }
 import os
